@@ -17,6 +17,7 @@ REQUIRED = [
     "state:cleared-top-kept(expired-or-removed)", "state:cleared-after-remove-op", "state:trimmed", "state:full",
     "req:epoch-mismatch", "req:epoch-empty", "req:epoch-match", "req:offset-beyond-top", "req:offset=top",
     "req:gap-not-retained", "req:gap-retained", "req:limit-truncates", "req:offset-near-maxuint64", "filters:set",
+    "filters:exclude-all-after-offset", "filters:exclude-some", "filters:exclude-none",
     "impl:rec=1", "impl:rec=0", "impl:err=112",
 ]
 
